@@ -111,21 +111,24 @@ def C19():
 
 def C20():
     jobs = [
-        MirJob("c20_mir_receive_loop", "receive thread closure of the GUI binary (MIR of src/bin/mstsc-rs.rs), with the outcome of RdpClient::read, the readiness test and the stop flag as free symbols: every error outcome leaves the loop; a successful read continues it; the client is locked only when the descriptor is ready and the flag is set; the lock is released on every path before the next wait and before the thread ends; every bitmap event is forwarded exactly once",
+        MirJob("c20_mir_receive_loop", "receive thread closure of the GUI binary (MIR of src/bin/mstsc-rs.rs), with the outcome of RdpClient::read, the readiness test and the stop flag as free symbols: every error outcome leaves the loop; a successful read continues it; the client is locked only when the descriptor is ready and the flag is set; the lock is released on every path before the next wait and before the thread ends; every bitmap event is forwarded exactly once; after a successful read the wait on the raw descriptor is entered only when the TLS stream reported no buffered data",
                mirjobs.gui_receive_loop),
         MirJob("c20_mir_disconnect_mapping", "mcs::Client::read: the disconnect provider ultimatum (opcode 8), and only it, is returned as Err(RdpError(Disconnect)) and is never parsed as data (SMT over the opcode byte)",
                mirjobs.disconnect_mapping),
-        MirJob("c20_mir_read_propagates", "RdpClient::read: the global channel is consulted only after mcs::Client::read returned Ok (an error of the transport is returned to the receive loop, not swallowed)",
-               mirjobs.must_follow_ok(r"^client::<impl at src/core/client\.rs[^>]*>::read$", r"mcs::Client::<S>::read$", r"global::Client::read::<", "global channel dispatch")),
+        MirJob("c20_mir_read_propagates", "RdpClient::read: the global channel is consulted only after mcs::Client::read returned Ok; and on every path on which the layer below failed, RdpClient::read / mcs::Client::read / x224::Client::read return that failure, never Ok (the receive loop is told that the session ended)",
+               mirjobs.multi(mirjobs.must_follow_ok(r"^client::<impl at src/core/client\.rs[^>]*>::read$", r"mcs::Client::<S>::read$", r"global::Client::read::<", "global channel dispatch"),
+                             mirjobs.errors_propagate([(r"^client::<impl at src/core/client\.rs[^>]*>::read$", r"mcs::Client::<S>::read$", "mcs::Client::read"),
+                                                       (r"^mcs::<impl at src/core/mcs\.rs[^>]*>::read$", r"x224::Client::<S>::read$", "x224::Client::read"),
+                                                       (r"^x224::<impl at src/core/x224\.rs[^>]*>::read$", r"tpkt::Client::<S>::read$", "tpkt::Client::read")]))),
     ]
     return Prop("C20", [], jobs,
                 assumptions=["the environment of one loop iteration (socket readiness, stop flag written by the GUI thread, result of RdpClient::read) is an arbitrary value of its type",
                              "native replay: launch_rdp_thread is cut text-identically from src/bin/mstsc-rs.rs into a library test; wait_for_fd is stubbed to `true`, which is what select(2) reports for a closed or shut-down descriptor"],
                 text="The sequential kernel of the receive thread decided on the MIR of the GUI binary: one iteration of the loop from an arbitrary environment (symbolic outcome of the read, of select and of the stop flag). This covers every way a session can end as seen by the loop (each Error variant) without enumerating schedules; the thread-level statement follows because the loop body is the only code the thread runs.",
-                note="NOT covered (concurrency and FFI, not expressible in the solver-based engines here): that select(2) on the raw descriptor wakes the thread for PDUs already buffered inside the TLS stream (finding D17 in DESIGN.md, recorded only), timing of events relative to the wait/lock/read steps, fairness between the two threads, the GUI loop's side (sync.store, join).",
+                note="NOT covered (concurrency and FFI, not expressible in the solver-based engines here): timing of events relative to the wait/lock/read steps, fairness between the two threads, the GUI loop's side (sync.store, join).",
                 technique="MIR->SMT symbolic execution (z3, cvc5 cross-check) of one iteration of the receive loop of the GUI binary with a symbolic environment; Datalog/BFS reachability for result propagation",
                 design_ref="DESIGN.md §4 C20 / §7.2",
-                outside=["TLS record buffering vs select(2) on the raw descriptor", "thread interleavings and timing", "main_gui_loop"])
+                outside=["thread interleavings and timing", "main_gui_loop", "OpenSSL's own record handling (buffered_read_size is taken at its word)"])
 
 
 RLE32_TOTAL = [("1x1_n3_a", True), ("2x1_n4_b", True), ("1x2_n4_a", True), ("2x2_n6_b", False)]
